@@ -31,6 +31,7 @@ from .ifaces.hello import Hello
 T0 = 1024.0
 PORT = 9001
 _LOG = [None]
+_RUN = [None]
 _S = {}
 
 
@@ -343,9 +344,10 @@ def setup(repo):
     """Bottom frame of a call's sink stack: records every message that reaches it and pushes itself back, so a
     second delivery to the same call is seen as well."""
 
-    def __init__(self, c):
+    def __init__(self, c, onfail=None):
       super(Term, self).__init__()
       self.c = c
+      self.onfail = onfail        # what the caller does, synchronously, inside its failure callback
 
     def AsyncProcessRequest(self, sink_stack, msg, stream, headers):
       raise NotImplementedError()
@@ -371,6 +373,21 @@ def setup(repo):
             kind = 'err'
       emit('post', self.c, kind, cls, txt)
       sink_stack.Push(self)
+      act, self.onfail = self.onfail, None
+      run = _RUN[0]
+      if act and run is not None and kind in ('err', 'timeout', 'clienterr'):
+        # a re-entrant caller: retries on the same transport, or closes it, from inside the response callback
+        if act == 'retry':
+          if run.open_pending():
+            emit('api', 'skip', 'req')
+          else:
+            run.request(self.c + 1000, None, False)
+        elif act == 'close':
+          if not run.mux and run.connecting():
+            emit('api', 'skip', 'close')
+          else:
+            emit('api', 'close')
+            run.sink.Close()
 
   _S.update(ts=ts, ms=ms, tms=tms, sk=sk, msgm=msgm, ob=ob, Term=Term, ChannelState=ChannelState, SinkProperties=SinkProperties,
             TransportHeaders=TransportHeaders, Endpoint=Endpoint, tser=TSer(Hello.Iface), mser=MSer(Hello.Iface))
@@ -423,6 +440,7 @@ class Run(object):
     self.w = V.World(self.rng, t0=T0, tie=case.get('tie', 'fifo'))
     self.ev = []
     _LOG[0] = self.ev
+    _RUN[0] = self
     self.slices = []
     self.mark = 0
     self.calls = {}
@@ -468,7 +486,7 @@ class Run(object):
     return 'ok' if a.successful() else 'exc:' + type(a.exception).__name__
 
   # -- ops -----------------------------------------------------------------------------------------
-  def request(self, c, dl, ev):
+  def request(self, c, dl, ev, onfail=None):
     S = _S
     msg = S['msgm'].MethodCallMessage(Hello.Iface, 'hi', (str(c),), {})
     if dl is not None:
@@ -478,7 +496,7 @@ class Run(object):
       evt = S['ob'].Observable()
       msg.properties[S['msgm'].Deadline.EVENT_KEY] = evt
     st = S['sk'].ClientMessageSinkStack()
-    st.Push(S['Term'](c))
+    st.Push(S['Term'](c, onfail))
     self.calls[c] = {'evt': evt, 'stack': st, 'msg': msg}
     buf = io.BytesIO()
     headers = {}
@@ -536,7 +554,8 @@ class Run(object):
       self.opi = i
       k = op[0]
       if k == 'open':
-        if self.open_ars or (not self.mux and self.inflight()):     # a sink is opened once (closed sinks are replaced)
+        if (self.mux and self.open_ars) or (not self.mux and (self.inflight() or self.open_pending() or self.connecting())):
+          # a mux sink cannot be re-opened; a serial sink may be (a new incarnation) once it carries nothing
           emit('api', 'skip', 'open')
         else:
           emit('api', 'open')
@@ -549,7 +568,7 @@ class Run(object):
         if self.open_pending():
           emit('api', 'skip', 'req')      # the owner only lends a sink whose Open() completed
         else:
-          self.request(c, dl, bool(op[4]) if len(op) > 4 else False)
+          self.request(c, dl, bool(op[4]) if len(op) > 4 else False, op[5] if len(op) > 5 else None)
           if len(op) < 4 or op[3]:
             w.settle()
       elif k == 'expire':
@@ -599,6 +618,7 @@ class Run(object):
 
   def close(self):
     _LOG[0] = None
+    _RUN[0] = None
     try:
       self.w.close()
     except Exception:
